@@ -187,7 +187,7 @@ func main() {
 	// filter by property: explicit clause tags restrict; function-level tags are inherited by the closure
 	var sel []*Oblig
 	for _, o := range obls {
-		if *prop == "" || *fnFlag != "" || o.Props == nil || hasProp(o.Props, *prop) || !explicitTags(cf, o) {
+		if o.Kind != "goal" || *prop == "" || *fnFlag != "" || o.Props == nil || hasProp(o.Props, *prop) || !explicitTags(cf, o) {
 			sel = append(sel, o)
 		}
 	}
